@@ -7,7 +7,7 @@ CONSTANTS
   Prod = {1, 2}
   Cons = {3, 4}
   Prog <- Prog_mix
-  StartSet = {0, 7}
+  StartSet = {7}
   Bug = "none"
 INVARIANTS ExactlyOnce FifoLinearizable PerProducerOrder CapacityBound NoTornSlot
 
